@@ -26,6 +26,11 @@ CLAIMED = {
 }
 
 CLAIMED.update({
+    "C06": ("guard dominance + push-order dominance + ordering-domain walks + fee-set agreement between sibling computations",
+            "Callback self-guard; flash_loan message order loan->borrower->AfterTrade(last) with old_balance from this call's query; success "
+            "reachable iff required <= balance with required = old + three CONFIG fees of the loan; counter inc/dec pairing; no mint "
+            "unless LOAN_COUNTER == 0; payback quote uses the same three fees; router guards, payback = vault's quote, profit = balance - quote. "
+            "Nested-loan accounting is not decided.", "§4 C06"),
     "C07": ("value provenance of ledger writes + must-pass-through + ordering-domain walk of the collect threshold + forward message flow",
             "Protocol fee value reaches both ledgers keyed by the ask pool on every success path; burn value paired with an attached "
             "burn message; in collect a ledger entry is zeroed exactly in the amount regions in which its transfer is attached, "
